@@ -1,0 +1,31 @@
+//go:build verif
+
+package qnet
+
+import "sync/atomic"
+
+// Schedule points for the verification harness (/verif, properties C03 and C04).
+// With the `verif` build tag every verifPoint call reports (connection, point name)
+// to the installed hook on the calling goroutine.  The hook may record the event
+// (per-goroutine logs) and may block (schedule gate) to force an interleaving.
+
+var verifHook atomic.Value // of verifHookFn
+
+type verifHookFn func(t *TcpConn, name string)
+
+// VerifSetHook installs (or, with nil, removes) the schedule-point hook.
+func VerifSetHook(f func(t *TcpConn, name string)) {
+	verifHook.Store(verifHookFn(f))
+}
+
+func (t *TcpConn) verifPoint(name string) {
+	if f, ok := verifHook.Load().(verifHookFn); ok && f != nil {
+		f(t, name)
+	}
+}
+
+// VerifState returns the raw connection state (Init/Running/Shutdown/Terminated).
+func (t *TcpConn) VerifState() int32 { return t.state.Get() }
+
+// VerifDoneClosed reports whether the done channel has been closed.
+func (t *TcpConn) VerifDoneClosed() bool { return t.testShouldExit() }
